@@ -76,7 +76,8 @@ static void check_registry(const char *after)
     if (i != M.n) vh_violation("registry-differs-from-model", "after %s: registry holds %d instances, model %d", after, i, M.n);
     /* the shared library a live instance's operations point into must still be loaded (a surplus dlclose on some other path -
      * a failed create, another instance's destroy - would unmap it under the survivor) */
-    for (struct ec_backend *b = active_instances.slh_first; b; b = b->link.sle_next) {
+    int guard = 0;
+    for (struct ec_backend *b = active_instances.slh_first; b && guard++ < 64; b = b->link.sle_next) {
         if (!b->common.soname || !b->common.soname[0]) continue;
         void *h = dlopen(b->common.soname, RTLD_NOLOAD | RTLD_LAZY);
         if (!h) vh_violation("live-instance-unusable", "after %s: %s, the library behind live descriptor %d, is no longer loaded", after, b->common.soname, b->idesc);
